@@ -616,6 +616,15 @@ def worker(job):
             shapes = [Shape(2, 1, a) for a in range(max(1, nal))]
         if prop == 'C05':
             shapes = [Shape(1, 1, a) for a in range(max(1, nal))] + ([Shape(2, 2, 0), Shape(0, 0, 0)] if tier == 'thorough' or spec.family == 'dispatch' else [])
+        if prop == 'C04':
+            # payloads whose byte count crosses the signed/unsigned boundary of the length field's type
+            lfs = [f for f in pk.fields if f.kind == 'lengthof']
+            if lfs:
+                w = spec.resolve(lfs[0])[1]
+                big = {'u8': [114, 241], 'i8': [100]}.get(w, [])
+                if tier == 'thorough' and w in ('u16',):
+                    big = big + [32800]
+                shapes = shapes + [Shape(n, 1, a) for n in big for a in range(max(1, nal))]
         for sh in shapes:
             if prop == 'C03':
                 out['cells'] += 1
